@@ -55,6 +55,8 @@ type Unit struct {
 	subFns  map[string]bool
 	epochAlloc map[int]Term // allocation counter at the time a heap epoch began
 	havocAlloc Term         // allocation counter valid for the havoc constants being created
+	pendingAxiom map[string]pendingTyping
+	specDepth  int
 	interest []Term // named inputs for models: name -> term
 	interestNames []string
 }
@@ -62,7 +64,7 @@ type Unit struct {
 func NewUnit(name string, mode Mode, fset *token.FileSet) *Unit {
 	u := &Unit{Name: name, Mode: mode, declared: map[string]Sort{}, kindSeq: map[string]int{},
 		Assumptions: map[string]bool{}, strLits: map[string]Term{}, typeIDs: map[string]int{}, fset: fset,
-		subFns: map[string]bool{}, epochAlloc: map[int]Term{}}
+		subFns: map[string]bool{}, epochAlloc: map[int]Term{}, pendingAxiom: map[string]pendingTyping{}}
 	return u
 }
 
@@ -85,8 +87,30 @@ func (u *Unit) Declare(name string, so Sort) Term {
 	}
 	u.declared[name] = so
 	u.emit(fmt.Sprintf("(declare-const %s %s)", name, so))
-	u.typingAxiom(name, so)
+	u.pendingAxiom[name] = pendingTyping{so, u.havocAlloc}
+	if u.specDepth > 0 {
+		u.needTyping(name)
+	}
 	return Term{name, so}
+}
+
+type pendingTyping struct {
+	so    Sort
+	alloc Term
+}
+
+// needTyping emits the typing axiom of a heap component version the first time a specification reads it.
+// (Code-level loads get the same facts instantiated at the load site.)
+func (u *Unit) needTyping(name string) {
+	p, ok := u.pendingAxiom[name]
+	if !ok {
+		return
+	}
+	delete(u.pendingAxiom, name)
+	save := u.havocAlloc
+	u.havocAlloc = p.alloc
+	u.typingAxiom(name, p.so)
+	u.havocAlloc = save
 }
 
 // typingAxiom states the typing invariant of integer-valued heap components (mode int):
